@@ -42,6 +42,9 @@ type stCase struct {
 	Freq  float64 `json:"cleanup_frequency"`
 	Debug bool    `json:"debug"`
 	Ops   []stOp  `json:"ops"`
+	// CorruptAtEnd: after the operations the newest stored value is made undecodable (what another hub version or a
+	// damaged page leaves behind) and the history is scanned from every stored id before it
+	CorruptAtEnd bool `json:"corrupt_at_end,omitempty"`
 }
 
 func showUpdFull(u *mercure.Update) string {
@@ -349,6 +352,40 @@ func runStoreCase(c *h.Ctx, r *h.Report, cs stCase) {
 			r.Count("op:dec")
 		}
 	}
+	if cs.CorruptAtEnd && len(kept) >= 2 {
+		// implementation alone (C08): a replay that cannot hand over a stored update must not announce the requested
+		// id as honoured — it fails (the hub answers 503 without Last-Event-ID), it does not skip the update
+		mercure.VerifBoltCorruptLast(t)
+		reqs := []string{"earliest"}
+		for _, e := range kept[:len(kept)-1] {
+			reqs = append(reqs, e.u.ID)
+		}
+		for _, req := range reqs {
+			s := mercure.NewLocalSubscriber(req, zapNop(), tss)
+			s.SetTopics([]string{"*"}, []string{"*"})
+			err := t.AddSubscriber(s)
+			_, _, _, resp := mercure.VerifSubState(s)
+			ups := drain(s)
+			_ = t.RemoveSubscriber(s)
+			s.Disconnect()
+			r.Evaluations++
+			r.Count("op:scan-over-an-undecodable-entry")
+			// the stored updates after the first occurrence of req (all of them for earliest), by the harness's own scan
+			after, found := 0, req == "earliest"
+			for _, e := range kept {
+				if found && len(e.u.Topics) > 0 {
+					after++
+				}
+				if e.u.ID == req {
+					found = true
+				}
+			}
+			if err == nil && found && resp == req && len(ups) < after {
+				viol("C08:requested-id-announced-although-a-stored-update-after-it-was-not-replayed",
+					fmt.Sprintf("requested %q: the transport announces %q and replays %d updates, %d are stored after that id (the newest one cannot be decoded and was skipped silently)", req, resp, len(ups), after))
+			}
+		}
+	}
 	ans := c.Driver.Ask(lines)
 	for i := range lines {
 		if ans[i] != impl[i] {
@@ -461,6 +498,7 @@ func runStore(c *h.Ctx, r *h.Report) {
 			}
 		}
 		cs.Ops = append(cs.Ops, decs...)
+		cs.CorruptAtEnd = rr.Chance(1, 3)
 		runStoreCase(c, r, cs)
 		nt := false
 		seen := map[string]bool{}
